@@ -239,12 +239,10 @@ impl<T: Clone> CowSlice<T> {
     }
     #[track_caller]
     pub fn extend_repeat_fill(&mut self, fill: &FillValue<T>, count: usize) {
-        self.modify_end(|data| {
-            extend_repeat(data, &fill.value, count);
-            if fill.is_left() {
-                data.make_mut().rotate_right(count);
-            }
-        });
+        self.modify_end(|data| extend_repeat(data, &fill.value, count));
+        if fill.is_left() {
+            self.as_mut_slice().rotate_right(count);
+        }
     }
     #[track_caller]
     pub fn extend_repeat_slice(&mut self, slice: &[T], count: usize) {
@@ -252,12 +250,10 @@ impl<T: Clone> CowSlice<T> {
     }
     #[track_caller]
     pub fn extend_repeat_slice_fill(&mut self, slice: FillValue<&[T]>, count: usize) {
-        self.modify_end(|data| {
-            extend_repeat_slice(data, slice.value, count);
-            if slice.is_left() {
-                data.make_mut().rotate_right(count * slice.value.len());
-            }
-        })
+        self.modify_end(|data| extend_repeat_slice(data, slice.value, count));
+        if slice.is_left() {
+            self.as_mut_slice().rotate_right(count * slice.value.len());
+        }
     }
     #[track_caller]
     pub unsafe fn extend_from_trusted<I>(&mut self, iter: I)
